@@ -313,6 +313,28 @@ def _int64_array(value):
         raise ValueError("Input value {0:d} is out-of-bounds!".format(value))
 
 
+def _python_int(value):
+    """Convert a NumPy integer or boolean scalar to a Python integer.
+
+    Parameters
+    ----------
+    value : any
+        An argument of :func:`sdss_objid` or :func:`sdss_specobjid`.
+
+    Returns
+    -------
+    :class:`int` or the input
+        The value of a NumPy integer or boolean scalar, or of a
+        zero-dimensional integer or boolean array, as a Python integer;
+        any other input is returned unchanged.
+    """
+    if isinstance(value, (np.integer, np.bool_)):
+        return int(value)
+    if isinstance(value, np.ndarray) and value.ndim == 0 and value.dtype.kind in 'biu':
+        return int(value)
+    return value
+
+
 def sdss_objid(run, camcol, field, objnum, rerun=301, skyversion=None,
                firstfield=None):
     """Convert SDSS photometric identifiers into CAS-style ObjID.
@@ -369,6 +391,16 @@ def sdss_objid(run, camcol, field, objnum, rerun=301, skyversion=None,
         skyversion = default_skyversion()
     if firstfield is None:
         firstfield = 0
+    #
+    # NumPy scalars (e.g. one element of a catalog column) are integers too.
+    #
+    run = _python_int(run)
+    camcol = _python_int(camcol)
+    field = _python_int(field)
+    objnum = _python_int(objnum)
+    rerun = _python_int(rerun)
+    skyversion = _python_int(skyversion)
+    firstfield = _python_int(firstfield)
     if isinstance(run, int):
         run = _int64_array(run)
     if isinstance(camcol, int):
@@ -501,6 +533,15 @@ def sdss_specobjid(plate, fiber, mjd, run2d, line=None, index=None):
     """
     if line is not None and index is not None:
         raise ValueError("line and index inputs cannot both be non-zero!")
+    #
+    # NumPy scalars (e.g. one element of a catalog column) are integers too.
+    #
+    plate = _python_int(plate)
+    fiber = _python_int(fiber)
+    mjd = _python_int(mjd)
+    run2d = _python_int(run2d)
+    line = _python_int(line)
+    index = _python_int(index)
     if isinstance(plate, int):
         plate = np.array([plate])
     if isinstance(fiber, int):
